@@ -222,6 +222,55 @@ def run(ctx):
     if ctx.exhaustive is None:
         ctx.exhaustive = ctx.tier == "thorough"
 
+    # ---- several handshakes in flight on one handler at once -------------------
+    if ctx.shard[0] == 0:
+        reqs_pool = list(supported) + ["2026-01-01", "1999-01-01", "__absent__", "2025-06-18\n"]
+        rngc = ctx.sub_rng("c04conc")
+
+        async def overlapping(groups):
+            outs = []
+            for group in groups:
+                srv = MCPServer("s")
+                h = srv.protocol_handler
+                msgs = []
+                for k, req in enumerate(group):
+                    params: Dict[str, Any] = {"clientInfo": {"name": f"c{k}", "version": "1"}, "capabilities": {}}
+                    if req != "__absent__":
+                        params["protocolVersion"] = req
+                    msgs.append(parse_message({"jsonrpc": "2.0", "id": k, "method": "initialize", "params": params}))
+                res = await asyncio.gather(*[h.handle_message(m) for m in msgs], return_exceptions=True)
+                outs.append((group, [(r, (h.session_manager.get_session(r[1]) if isinstance(r, tuple) and r[1] else None)) for r in res]))
+            return outs
+        groups = [list(p) for p in itertools.permutations(reqs_pool[:4], 2)] + \
+                 [[rngc.choice(reqs_pool) for _ in range(rngc.randint(2, 5))] for _ in range(60 if ctx.tier == "quick" else 1500)]
+        try:
+            outs, _ = run_virtual(overlapping, groups)
+        except HangDetected as e:
+            ctx.violation("hang", f"overlapping handshakes: {e}", {"overlapping": True})
+            outs = []
+        for group, results in outs:
+            case = {"overlapping_handshakes": group}
+            for k, (r, sess) in enumerate(results):
+                req = group[k]
+                ctx.count("initialize_handled")
+                ctx.count("overlapping_initializes")
+                if not isinstance(r, tuple):
+                    ctx.violation("initialize_raised", f"overlapping handshakes {group}: #{k} raised {r!r}", case)
+                    continue
+                d = r[0].model_dump(exclude_none=True) if r[0] is not None else None
+                ans = ((d or {}).get("result") or {}).get("protocolVersion")
+                if not (isinstance(ans, str) and ans in supported):
+                    ctx.violation("unsupported_version_acknowledged" if ans is not None else "no_initialize_result",
+                                  f"overlapping handshakes {group}: #{k} (requested {req!r}) answered {d!r}", case)
+                    continue
+                if req in supported and ans != req:
+                    ctx.violation("supported_version_not_echoed", f"overlapping handshakes {group}: #{k} requested supported {req!r}, "
+                                  f"answered {ans!r}", case)
+                if sess is None or sess.protocol_version != ans:
+                    ctx.violation("session_version_differs", f"overlapping handshakes {group}: #{k} answered {ans!r}, its session "
+                                  f"records {getattr(sess, 'protocol_version', None)!r}", case)
+            ctx.record(case, shape=len(results), nontrivial=True, cls="overlapping_handshakes")
+
     # ---- end-to-end pairing --------------------------------------------------
     ecases = [c for c in e2e_cases(ctx) if ctx.mine()]
 
